@@ -79,11 +79,11 @@ def run(ctx):
     ctx.coverage.update(states=tot_s, transitions=tot_t, exhaustive=True)
     ctx.log("design: %d generated, %d distinct" % (tot_t, tot_s))
     runs = []
-    runs.append(run_replay(ctx, "gen_nodedb_b.cfg", 12 if q else 1))
+    runs.append(run_replay(ctx, "gen_nodedb_b.cfg", 36 if q else 2))
     runs.append(run_replay(ctx, "gen_nodedb_a.cfg", 60 if q else 3))
     runs.append(run_replay(ctx, "gen_nodedb_c.cfg", 1))          # up to four competing candidates in one version
-    runs.append(run_replay(ctx, "gen_nodedb_d.cfg", 1))          # one line of versions 0..3 over three keys, single writes
-    runs.append(run_replay(ctx, "gen_nodedb_b.cfg", 300 if q else 40, gated=True))
+    runs.append(run_replay(ctx, "gen_nodedb_d.cfg", 2 if q else 1))          # one line of versions 0..3 over three keys, single writes
+    runs.append(run_replay(ctx, "gen_nodedb_b.cfg", 900 if q else 120, gated=True))
     for _, s in runs:
         verdicts(ctx, s)
     gates = runs[-1][1]["gates"]
